@@ -10,7 +10,7 @@ import random
 import vlib
 from vlib import Check, Scratch
 from ddpmodel import *
-from ddpmodel.gen import Gen, StmtGen, POOL
+from ddpmodel.gen import Gen, StmtGen, POOL, wrap_in_function
 from ddpmodel import runner
 from checks import progcheck
 
@@ -114,7 +114,10 @@ def tree_program(rnd, k):
 
 def stmt_program(rnd, k):
     g = StmtGen(rnd)
-    g.build(n_items=rnd.randint(12, 28), d=2, nest=rnd.randint(1, 3), n_funcs=rnd.randint(0, 3))
+    local = rnd.random() < 0.35      # every variable a local of one function (globals and locals are compiled differently)
+    g.build(n_items=rnd.randint(12, 28), d=2, nest=rnd.randint(1, 3), n_funcs=0 if local else rnd.randint(0, 3))
+    if local and wrap_in_function(g.prog):
+        g.cells.add(("holders", "local"))
     return g
 
 
